@@ -38,7 +38,8 @@ class C06(Prop):
                   "they are not atomic over the registry (the reference machine sweeps the single map band by band in the same way). The executable "
                   "model runs with hash := the hash the implementation reported for the first key of the same class named by the case, so the key "
                   "contract holds by construction; spec_ok additionally requires that all keys of one class were reported with one hash.")
-    rule = ("histories: 1 thread, 4-14 calls over 2-5 key classes (variants = equal keys built differently; classes chosen to collide in one "
+    rule = ("histories: 1 thread, 4-14 calls over 2-5 key classes (variants = equal keys built differently incl. two labels sharing a name in either "
+            "order and identical labels; same-name pairs inside 3+ labels are distinct classes; classes chosen to collide in one "
             "shard half of the time), all three kinds, every call kind; exhaustive schedules of {2 creators}, {creator || create;delete}, "
             "{create;get || delete} (thorough: + {creator || retain}, {2x2 calls}); directed same-shard triples {creator K || creator K or K2 || "
             "create Y; delete/retain/clear Y} with the size-preserving interleaving and perturbations of it; races: 2-3 threads x 1-2 calls ({2 creators same key}, {creator || "
@@ -57,7 +58,9 @@ class C06(Prop):
             rc, outs, err = core.run_impl(binpath, ["TABLE %d %d" % (NCLASS, NVAR)])
             if rc != 0 or not outs or not outs[0].startswith("TABLE"):
                 raise core.MachineryBroken("c06 TABLE query failed: %s %s" % (outs, err[-500:]))
-            head, body = outs[0].split(";")
+            head, body, eqbad = outs[0].split(";")
+            if eqbad.strip():
+                raise core.MachineryBroken("c06 generator bug: key pool classes/variants do not match == of the real keys: " + eqbad.strip()[:300])
             shards = int(head.split()[1])
             k = shards.bit_length() - 1
             if 1 << k != shards:
@@ -82,6 +85,10 @@ class C06(Prop):
             cs = rng.shuffle(g)[:n]
             while len(cs) < n and rng.chance(1, 2):
                 cs.append(rng.below(NCLASS))
+            return list(dict.fromkeys(cs))
+        if rng.chance(1, 3):
+            # two labels sharing a name (either order is ==), identical labels, same-name pair inside 3 labels
+            cs = rng.shuffle(list(range(28, 48)))[:n]
             return list(dict.fromkeys(cs))
         # adversarial: same name different labels (c, c+4), same labels different name (c, c+1)
         base = rng.below(NCLASS - 8)
